@@ -203,10 +203,19 @@ func c05EventsInOrder(c *Ctx, k *core) {
 	}
 	n := 0
 	for _, f := range w.Funcs {
-		for _, op := range chanOps(f) {
-			if !op.Send || !chanIsField(op.Chan, k.fUpdates) {
-				continue
+		if _, _, isFwd := k.eventsForwarder(f); isFwd {
+			// a forwarding helper: its send is attributed to its call sites (below)
+			cg := w.callGraph()
+			okCallers := len(cg.in[origin(f)]) > 0
+			for _, e := range cg.in[origin(f)] {
+				if e.Kind != "call" || !isStoreFn[origin(e.From)] && e.From != k.enableHelper() {
+					okCallers = false
+				}
 			}
+			c.check(okCallers, "events-in-order", relName(f)+"#forwarder", f.Pos(), "the Events forwarding helper is only called synchronously from the storing function / the enable helper", "a helper that sends on the Events channel is called from somewhere other than the storing function (or is spawned / deferred)")
+			continue
+		}
+		for _, op := range k.eventsSendsIn(f) {
 			n++
 			okS := f.Parent() == nil && isStoreFn[origin(f)]
 			// after the store of that version
